@@ -11,7 +11,7 @@ def role(n):
     return 'proved for all inputs'
 spec = {'C01': ('JP.C01', ['JP.query_perm', 'JP.result_paths', 'JP.parsed_ok', 'JP.parse_wellTyped']), 'C02': ('JP.C02', ['JP.query_ordered', 'JP.query_characterised', 'JP.query_ordered_sharp']),
         'C03': ('JP.C03', ['JP.result_paths']), 'C04': ('JP.C04', ['JP.cmpData_spec', 'JP.eqJson_spec']), 'C05': ('JP.C05', ['JP.flt_spec']),
-        'C06': ('JP.C06', ['JP.Lex.int_spec', 'JP.Lex.member_name_shorthand_spec', 'JP.Lex.function_name_spec', 'JP.Lex.int_denotes', 'JP.Lex.number_denotes', 'JP.Lex.string_denotes']), 'C07': ('JP.C07', ['JP.Lex.int_spec', 'JP.Lex.member_name_shorthand_spec', 'JP.Lex.function_name_spec', 'JP.Lex.int_denotes', 'JP.Lex.number_denotes', 'JP.Lex.string_denotes', 'JP.parse_wellTyped', 'JP.builderWT', 'JP.tryNewFn_good', 'JP.parse_intsInRange', 'JP.builderRG']), 'C08': ('JP.C08', []), 'C09': ('JP.C09', []), 'C10': ('JP.C10', []),
+        'C06': ('JP.C06', ['JP.Lex.int_spec', 'JP.Lex.member_name_shorthand_spec', 'JP.Lex.function_name_spec', 'JP.Lex.int_denotes', 'JP.Lex.number_denotes', 'JP.Lex.string_denotes']), 'C07': ('JP.C07', ['JP.Lex.int_spec', 'JP.Lex.member_name_shorthand_spec', 'JP.Lex.function_name_spec', 'JP.Lex.int_denotes', 'JP.Lex.number_denotes', 'JP.Lex.string_denotes', 'JP.parse_wellTyped', 'JP.builderWT', 'JP.tryNewFn_good', 'JP.parse_intsInRange', 'JP.builderRG']), 'C08': ('JP.C08', []), 'C09': ('JP.C09', []), 'C10': ('JP.C10', ['JP.Re.ends_sound', 'JP.Re.ends_complete', 'JP.Re.fuel_enough']),
         'C11': ('JP.C11T', ['JP.sliceIndices_spec', 'JP.implIndex_spec', 'JP.up_prog', 'JP.up_maximal', 'JP.slice_inRange']),
         'C12': ('JP.C12', []), 'C13': ('JP.C13', []), 'C14': ('JP.C14', []), 'C15': ('JP.C15', [])}
 extra_files = json.load(open(os.path.join(L, 'theorem_extra.json'))) if os.path.exists(os.path.join(L, 'theorem_extra.json')) else {}
